@@ -313,6 +313,9 @@ func coldMain(g, iters, seed int) {
 		{Length: 6, Allow: spg.Lowers, Require: spg.Uppers | spg.Symbols},
 		{Length: 7, Allow: spg.Digits, RequireSets: []string{"xyz"}, Exclude: spg.Ambiguous, ExcludeChars: "x"},
 		{Length: 5, Allow: spg.Symbols | spg.Ambiguous},
+		{Length: 24, Allow: spg.Lowers, RequireSets: []string{"abcd", "efgh", "ijkl", "mnop", "qrst", "uvwx"}},
+		{Length: 8, Allow: spg.Digits | spg.Lowers},
+		{Length: 8, Allow: spg.Digits | spg.Lowers, Exclude: spg.Ambiguous},
 	}
 	words := []string{"alpha", "beta", "Beta", "gamma", "4", "o'neil"}
 	var answers sync.Map
